@@ -454,16 +454,17 @@ Lemma internalize_default : forall predef act, internalize predef (default_name 
 Proof. intros. destruct act; reflexivity. Qed.
 
 Lemma resolve_shorthand : forall predef classes names d m accs a act,
-  colon_free d -> In (m, accs) d -> In a accs -> a_name a = default_name act ->
+  colon_free d -> In (m, accs) d -> In a accs -> m <> [] -> a_name a = default_name act ->
   resolve (mk_client predef classes names d) act (Some m) = Some (m, default_name act).
 Proof.
-  intros predef classes names d m accs a act CF I1 I2 E. unfold resolve. simpl.
+  intros predef classes names d m accs a act CF I1 I2 NE E. unfold resolve. simpl.
   destruct (assoc_last str_eqb m (internal_of predef d)) as [v|] eqn:D.
   - exfalso. apply assoc_last_In in D. apply internal_of_In in D.
     destruct D as [m' [accs' [a' [_ [_ [E' _]]]]]].
     assert (has_colon m = true) by (rewrite E'; apply has_colon_mk_ident).
     rewrite (CF _ _ I1) in H. discriminate.
-  - rewrite (CF _ _ I1).
+  - destruct m as [|x m]; [contradiction|].
+    rewrite (CF _ _ I1).
     fold (default_name act). rewrite <- E. erewrite internal_of_lookup; eauto.
     rewrite E. rewrite internalize_default. reflexivity.
 Qed.
@@ -477,22 +478,16 @@ Proof.
   destruct (assoc_last str_eqb i (internal_of predef d)) as [v|] eqn:D.
   - exfalso. apply assoc_last_In in D. apply internal_of_In in D.
     destruct D as [m' [accs' [a' [J1 [J2 [E' _]]]]]]. eapply U; eauto.
-  - rewrite HC. reflexivity.
+  - destruct i; auto. rewrite HC. reflexivity.
 Qed.
 
-(* a message without identifier is about no parameter -- unless a module is called "None" *)
-Lemma resolve_no_ident : forall predef classes names d act,
-  colon_free d -> (forall m accs, In (m, accs) d -> m <> s_None) ->
-  resolve (mk_client predef classes names d) act None = None.
+(* a message without identifier is about no parameter, whatever the modules are called *)
+Lemma resolve_no_ident : forall C act, resolve C act None = None.
+Proof. reflexivity. Qed.
+Lemma decode_no_ident : forall C imp now m k e, m_ident m = None -> decode C imp now m <> OUpd k e.
 Proof.
-  intros predef classes names d act CF NN. unfold resolve. simpl.
-  match goal with |- assoc_last str_eqb ?K ?L = None => destruct (assoc_last str_eqb K L) as [v|] eqn:D end; auto.
-  exfalso. apply assoc_last_In in D. apply internal_of_In in D.
-  destruct D as [m' [accs' [a' [J1 [J2 [E' _]]]]]].
-  fold (default_name act) in E'.
-  assert (mk_ident s_None (default_name act) = mk_ident m' (a_name a')) as E2 by exact E'.
-  apply mk_ident_inj in E2; [|reflexivity|eapply CF; eauto].
-  destruct E2 as [E2 _]. eapply NN; eauto.
+  intros C imp now m k e H. unfold decode. rewrite H.
+  destruct (m_data m); try discriminate; destruct (negb (is_update_message (m_action m))); discriminate.
 Qed.
 
 (* ------------------------------------------------------------------ write path *)
